@@ -161,7 +161,7 @@ ReadOutcome with_handler(const ReadOpts& o, R reader) {
   switch (o.handler) {
     case H_CHECK: {
       RecHandler h;
-      h.want_items = o.want_items; h.norm_zero = o.norm_zero; h.max_notifications = o.max_notifications;
+      h.want_items = o.want_items; h.norm_zero = o.norm_zero; h.max_notifications = o.max_notifications; h.only_obj = o.only_obj;
       guarded(out, [&] { reader(h); });
       take(out, h);
       break;
